@@ -117,14 +117,21 @@ def main(argv=None):
 
     results = []
     if jobs:
-        ctx = mp.get_context("fork")
+        ctx = mp.get_context("spawn")  # not fork: z3 timer threads do not survive a fork (time-outs would never fire)
         nproc = max(1, min(args.jobs, len(jobs)))
         if nproc == 1:
             results = [runner.run_job(j) for j in jobs]
         else:
+            # when violations have been reproduced and the run has become slow, stop exploring further jobs
+            stop_after = float(os.environ.get("PYVC_STOP_AFTER_S", "240" if args.tier == "quick" else "1800"))
             with ctx.Pool(nproc, maxtasksperchild=50) as pool:
                 for r in pool.imap_unordered(runner.run_job, jobs, chunksize=1):
                     results.append(r)
+                    if time.time() - t0 > stop_after and any(x["violations"] for x in results):
+                        stopped_early = len(jobs) - len(results)
+                        pool.terminate()
+                        print(f"stopping early: violations found, {stopped_early} of {len(jobs)} jobs not run", flush=True)
+                        break
                     if args.verbose:
                         print(f"  job {r.get('name')}[{r.get('case')}] {r['status']} paths={r['paths']} obl={len(r['obligations'])} {r.get('wall_s')}s", flush=True)
     wall = time.time() - t0
@@ -136,7 +143,7 @@ def report(prop, args, seed, meta, results, static_results, bounded_results, wal
     crashes = [r for r in results if r["status"] == "crash"]
     undecided = [r for r in results if r["status"] == "undecided"]
     agreement_failed = [(r, f) for r in results for f in r["agreement"]["failed"]]
-    obligations = [o for r in results for o in r["obligations"]]
+    obligations = [o for r in results for o in r["obligations"] if o["status"] != "skipped"]
     n_obl = len(obligations) + len(static_results)
     proved = [o for o in obligations if o["status"] == "proved"]
     unknown = [o for o in obligations if o["status"] == "unknown"]
